@@ -166,6 +166,15 @@ int main()
 			uintptr_t c0 = internal::RadixSorterCodeGetter<int**>()(&p0), c = internal::RadixSorterCodeGetter<int**>()(&p);
 			printf("%llu %d\n", ull(c - c0), int(c == reinterpret_cast<uintptr_t>(p))); continue;
 		}
+		if (cmd0 == "GBS" || cmd0 == "GES")
+		{	// the real private HashSorter::pvBinarySearch / pvExponentialSearch on an array of comparer values (-1 / 0 / 1)
+			size_t n; is0 >> n; std::vector<int> v(n + 2, 99);
+			for (size_t i = 0; i < n; ++i) is0 >> v[i + 1];
+			int* b = v.data() + 1; bool oob = false;
+			auto comparer = [b, n, &oob] (int* p) { if (p < b || p >= b + n) oob = true; return *p; };
+			auto r = (cmd0 == "GBS") ? HashSorter::pvBinarySearch(b, n, comparer) : HashSorter::pvExponentialSearch(b, n, comparer);
+			printf("%s%lld %d\n", oob ? "OOB " : "", (long long)(r.iterator - b), int(r.found)); continue;
+		}
 		if (cmd0 == "GGRP")
 		{	// the real private HashSorter::pvGroup on an array of item ids
 			size_t n; is0 >> n; std::vector<long long> v(n + 2, -7);
